@@ -587,11 +587,20 @@ let sqlhist () : unit =
           let e = { e_kind = EDel; e_key = k; e_t = t; e_assign = [] } in
           if was_explicit then set_pending i (get_pending i @ [e]) else accepted := !accepted @ [e]
         end
-    | "sel" ->
+    | ("sel" | "selnk") as skind ->
         let i = rd_int () in cur := i; let desc = rd_bool () in
         let cons = rd_list (fun () -> let o = rd_cop () in let v = rd_sval () in (o, v)) in
         let limit = rd_int () in
-        if cons = [] && limit = 0 && not desc then begin
+        (* selnk: an additional constraint c<col> = v on a non-key column, which SQLite evaluates
+           itself on the rows the cursor delivers (its own comparison; NULL equals nothing) *)
+        let nk = if skind = "selnk" then (let col = rd_int () in let v = rd_sval () in Some (col, v)) else None in
+        let keep (_, vs) = (match nk with
+          | None -> true
+          | Some (col, v) ->
+              (match Stdlib.List.nth vs col, v with
+               | VNull, _ | _, VNull -> false
+               | a, b -> order_exact a b = Some Eq)) in
+        if cons = [] && limit = 0 && not desc && nk = None then begin
           last_sel := !opno;
           (* what this connection sees: the accepted statements plus its own pending ones *)
           last_sel_events := !accepted @ get_pending i
@@ -601,7 +610,7 @@ let sqlhist () : unit =
          | None -> pr "panic"
          | Some rows ->
              pr "ok";
-             pr_list (fun (k, vs) -> pr_sval k; Stdlib.List.iter pr_sval vs) rows)
+             pr_list (fun (k, vs) -> pr_sval k; Stdlib.List.iter pr_sval vs) (Stdlib.List.filter keep rows))
     | "selo" ->
         (* ORDER BY a non-key column, ties by key: SQLite sorts what the cursor delivers in key
            order (NULL first, then numbers, text, blobs: its own comparison) *)
